@@ -61,7 +61,8 @@ class KeyUniverse:
     """A small, per-case key universe, so that histories revisit keys (overwrites,
     deletes of present keys) and keys are prefix-related."""
 
-    KINDS = ["adv", "adv", "adv", "chain", "fix3", "k32", "nibbly", "adv", "chain", "fix3", "k32", "nibbly", "k40"]
+    KINDS = ["adv", "adv", "adv", "chain", "fix3", "k32", "nibbly", "adv", "chain", "fix3", "k32", "nibbly", "k40",
+             "adv", "adv", "adv", "chain", "fix3", "k32", "nibbly", "adv", "chain", "fix3", "k32", "nibbly", "k40", "k200"]
 
     def __init__(self, rnd, kind=None):
         self.rnd = rnd
@@ -94,6 +95,15 @@ class KeyUniverse:
                 if cut % 2 and nb < m and nb < n:
                     other[nb] = (base[nb] & 0xF0) | (other[nb] & 0x0F)
                 self.pool32.append(bytes(other))
+        if self.kind == "k200":
+            # VERY long keys (129..200 bytes: nibble positions beyond 256, where small-int
+            # identity and one-byte counters end), prefix-related so that paths end at branches
+            n = rnd.choice([129, 130, 160, 200])
+            base = bytes(rnd.randrange(256) for _ in range(n))
+            self.pool32 = [base, base + b"\x01", base + b"\x02\x03", base[:-1], base[:128], base[:128] + b"\x77"]
+            for _ in range(rnd.randint(1, 4)):
+                i = rnd.randrange(n)
+                self.pool32.append(base[:i] + bytes([base[i] ^ rnd.choice([0x01, 0x10, 0x80])]) + base[i + 1:])
         if self.kind == "ladder":
             # every key is a prefix of one long key: with many of them stored the trie is a
             # ladder two nodes deep per byte - paths of far more than 64 nodes
@@ -108,7 +118,7 @@ class KeyUniverse:
             return key_adv(rnd)
         if k == "fix3":
             return key_fix3(rnd)
-        if k in ("k32", "k40"):
+        if k in ("k32", "k40", "k200"):
             return rnd.choice(self.pool32)
         if k == "nibbly":
             return key_nibbly(rnd)
